@@ -845,4 +845,176 @@ Section Tree.
     - pose proof (fmeasure_fuel _ _ HF Hne) as Hfu. rewrite fview_leaves, Hlk in Hfu.
       replace (N.of_nat k - 1)%N with (N.of_nat (k - 1)) by lia. exact Hfu.
   Qed.
+
+  (** * ConsistencyProof / subproof reads RFC-6962 SUBPROOF out of the store *)
+  Notation sub := (sub T hc hempty).
+
+  Definition sp_finish (s : hstore T) (r : N * N * bool * list T) : gerr + list T :=
+    let '(offset, n', b', acc) := r in
+    if b' then inr acc else
+    match get_sub_tree_pos n' with
+    | [p] => match hs_get T s (sub32 (w32m (p + offset)) 1) with
+             | None => inl GStoreRead
+             | Some h => inr (h :: acc)
+             end
+    | _ => inl GAssert
+    end.
+  Definition sp_run f s offset m n b acc : gerr + list T :=
+    match subproof_loop T hc f s offset m n b acc with
+    | inl e => inl e
+    | inr r => sp_finish s r
+    end.
+
+  Lemma subproof_eq s m n b :
+    subproof T hc s m n b = sp_run (S (N.size_nat (n - 1))) s 0%N m n b [].
+  Proof.
+    unfold subproof, sp_run.
+    destruct (subproof_loop T hc _ s 0%N m n b []) as [e|[[[o n'] b'] acc]]; reflexivity.
+  Qed.
+
+  Lemma sp_run_done f s offset m n b acc : (m <? n)%N = false ->
+    sp_run f s offset m n b acc = sp_finish s (offset, n, b, acc).
+  Proof. intro H. unfold sp_run. destruct f; cbn [subproof_loop]; rewrite H; reflexivity. Qed.
+
+  Lemma sp_run_step f s offset m n b acc : (m <? n)%N = true ->
+    sp_run (S f) s offset m n b acc =
+      let k := split32 n in
+      if (m <=? k)%N then
+        match fold_at T hc s (w32m (offset + k * 2 + two32N - 1)) (get_sub_tree_pos (sub32 n k)) with
+        | inl e => inl e
+        | inr rootk2n => sp_run f s offset m k b (rootk2n :: acc)
+        end
+      else
+        let offset' := w32m (offset + k * 2 + two32N - 1) in
+        match hs_get T s (sub32 offset' 1) with
+        | None => inl GStoreRead
+        | Some root02k => sp_run f s offset' (sub32 m k) (sub32 n k) false (root02k :: acc)
+        end.
+  Proof.
+    intro H. unfold sp_run. cbn [subproof_loop]. rewrite H. cbn [negb]. cbv zeta.
+    destruct (m <=? split32 n)%N.
+    - destruct (fold_at T hc s _ _); reflexivity.
+    - destruct (hs_get T s _); reflexivity.
+  Qed.
+
+  Lemma sp_run_forest : forall f G b0 s pre post m b acc,
+    fwf b0 G -> G <> [] -> hs_data T s = pre ++ fpost G ++ post ->
+    (N.of_nat (length pre + length (fpost G)) < two32N)%N ->
+    (N.of_nat (length (fleaves G)) < 2147483648)%N ->
+    1 <= m -> m <= length (fleaves G) ->
+    (m < length (fleaves G) \/ b = true \/ exists h t, G = [(h, t)]) ->
+    fmeasure G <= f ->
+    sp_run f s (N.of_nat (length pre)) (N.of_nat m) (N.of_nat (length (fleaves G))) b acc
+      = inr (sub m (fleaves G) b ++ acc).
+  Proof.
+    induction f as [|f IH]; intros G b0 s pre post m b acc HG Hne Hd Hb Hn Hm1 Hm2 Hinv Hf;
+      (destruct (Nat.eq_dec m (length (fleaves G))) as [Emn|Hmn];
+       [ (* m = n: the loop is over *)
+         rewrite sp_run_done by (rewrite Nltb_of_nat; apply Nat.ltb_ge; lia);
+         subst m; rewrite sub_full; unfold sp_finish;
+         destruct b; [reflexivity|];
+         destruct Hinv as [Hlt|[Hbt|(h & t & HGs)]]; [lia|discriminate|];
+         subst G; destruct HG as (Hh & Hp & _);
+         rewrite (get_sub_tree_pos_fwf [(h, t)] b0) by (simpl; auto);
+         cbn [map psums];
+         pose proof (read_all_forest [(h, t)] b0 s pre [] post ltac:(simpl; auto) Hd) as Hr;
+         cbn [length map psums read_all] in Hr; change (N.of_nat 0) with 0%N in Hr;
+         specialize (Hr ltac:(lia));
+         destruct (hs_get T s _) as [x|]; [|discriminate];
+         cbn [froots map snd] in Hr; inversion Hr; subst x;
+         cbn [fleaves flat_map snd app]; rewrite app_nil_r, (perfect_mth _ _ Hp); reflexivity
+       | ]).
+    - (* no fuel but m < n: the forest has at least two leaves, so its measure is positive *)
+      destruct (forest_split G b0 HG ltac:(lia)) as (hl & tl & Gr & tail & _ & _ & _ & _ & _ & _ & Hlt & _). lia.
+    - assert (H2 : 2 <= length (fleaves G)) by lia.
+      destruct (forest_split G b0 HG H2) as (hl & tl & Gr & tail & Hp & HGr & HGrne & Hlv & Hle & Hpost & Hm1' & Hm2').
+      pose proof (perfect_leaves_len _ _ Hp) as HlenL.
+      pose proof (perfect_post_len _ _ Hp) as HlenP. rewrite Nat.pow_succ_r' in HlenP.
+      remember (2 ^ hl) as K eqn:HK.
+      assert (HK1 : 1 <= K) by (rewrite HK; apply pow2_pos).
+      assert (Hn' : 0 < length (fleaves Gr)).
+      { destruct Gr as [|[h0 t0] Gr0]; [congruence|].
+        pose proof (fleaves_nonempty h0 t0 Gr0). destruct (fleaves ((h0, t0) :: Gr0)); simpl; [congruence|lia]. }
+      assert (HGrl : fleaves Gr <> []) by (destruct (fleaves Gr); simpl in *; [lia|congruence]).
+      rewrite Hpost in Hd, Hb. rewrite !app_length in Hb.
+      rewrite Hlv in *. rewrite app_length, HlenL in *.
+      rewrite sp_run_step by (rewrite Nltb_of_nat; apply Nat.ltb_lt; lia).
+      cbv zeta.
+      rewrite (split32_spec K hl (length (fleaves Gr)) HK Hn' Hle) by (unfold two32N; lia).
+      assert (Hleb : (N.of_nat m <=? N.of_nat K)%N = (m <=? K)).
+      { destruct (N.leb_spec (N.of_nat m) (N.of_nat K)); destruct (Nat.leb_spec m K); lia. }
+      rewrite Hleb.
+      assert (Hbase : w32m (N.of_nat (length pre) + N.of_nat K * 2 + two32N - 1) = N.of_nat (length (pre ++ ppost tl))).
+      { rewrite app_length. unfold w32m, two32N in *. lia. }
+      assert (Hsub : sub32 (N.of_nat (K + length (fleaves Gr))) (N.of_nat K) = N.of_nat (length (fleaves Gr))).
+      { rewrite sub32_small by (unfold two32N; lia). lia. }
+      rewrite Hbase, Hsub.
+      assert (Hd2 : hs_data T s = (pre ++ ppost tl) ++ fpost Gr ++ (tail ++ post)).
+      { rewrite Hd, <- !app_assoc. reflexivity. }
+      rewrite (sub_app T hc hempty hl) by (try rewrite <- HK; assumption || lia).
+      rewrite <- HK.
+      destruct (Nat.leb_spec m K) as [Hl|Hr].
+      + rewrite (fold_at_fwf Gr (S hl) s (pre ++ ppost tl) (tail ++ post) HGr HGrne Hd2)
+          by (rewrite ?app_length; unfold two32N in *; lia).
+        assert (HdL : hs_data T s = pre ++ fpost [(hl, tl)] ++ (fpost Gr ++ tail ++ post)).
+        { rewrite Hd. cbn [fpost flat_map snd]. rewrite app_nil_r, <- !app_assoc. reflexivity. }
+        assert (HlvL : fleaves [(hl, tl)] = pleaves tl).
+        { cbn [fleaves flat_map snd]. apply app_nil_r. }
+        rewrite <- HlenL, <- HlvL.
+        rewrite (IH [(hl, tl)] (S hl) s pre _ m b _ ltac:(simpl; auto) ltac:(congruence) HdL).
+        * rewrite HlvL, <- app_assoc. reflexivity.
+        * cbn [fpost flat_map snd]. rewrite app_nil_r. unfold two32N in *. lia.
+        * rewrite HlvL, HlenL. lia.
+        * lia.
+        * rewrite HlvL, HlenL. lia.
+        * right. right. exists hl, tl. reflexivity.
+        * cbn [fmeasure]. lia.
+      + destruct (ppost_last tl) as [pt Hpt].
+        assert (Hget : hs_get T s (sub32 (N.of_nat (length (pre ++ ppost tl))) 1) = Some (proot tl)).
+        { rewrite sub32_small by (rewrite app_length; unfold two32N in *; lia).
+          unfold hs_get. rewrite Hd, Hpt.
+          replace (N.to_nat (N.of_nat (length (pre ++ pt ++ [proot tl])) - 1)) with (length (pre ++ pt))
+            by (rewrite !app_length; simpl; lia).
+          rewrite <- !app_assoc. rewrite (app_assoc pre pt).
+          rewrite nth_error_app2 by lia. rewrite Nat.sub_diag. reflexivity. }
+        rewrite Hget.
+        assert (Hsubm : sub32 (N.of_nat m) (N.of_nat K) = N.of_nat (m - K)).
+        { rewrite sub32_small by (unfold two32N; lia). lia. }
+        rewrite Hsubm.
+        rewrite (IH Gr (S hl) s (pre ++ ppost tl) (tail ++ post) (m - K) false _ HGr HGrne Hd2)
+          by (rewrite ?app_length; unfold two32N in *; lia || (left; lia)).
+        rewrite (perfect_mth _ _ Hp), <- app_assoc. reflexivity.
+  Qed.
+
+  Theorem consistency_proof_rfc t ls m k : tree_of t ls -> ct_store T t <> None ->
+    (N.of_nat (length ls) < 2147483648)%N -> 1 <= m -> m <= k -> k <= length ls ->
+    consistency_proof T hc t (N.of_nat m) (N.of_nat k) = inr (rfc_proof T hc hempty m (firstn k ls)).
+  Proof.
+    intros (HR & Hs & Hh & Hst) Hsome Hb Hm1 Hmk Hk.
+    unfold consistency_proof. rewrite Hs, forest_of_rval.
+    destruct (N.ltb_spec (N.of_nat k) (N.of_nat m)); [lia|].
+    destruct (N.ltb_spec (N.of_nat (length ls)) (N.of_nat k)); [lia|].
+    cbn [orb].
+    destruct (ct_store T t) as [s|]; [|congruence].
+    destruct Hst as [Hc Hf].
+    destruct (forest_of_prefix ls k) as [more Hmore].
+    set (lk := firstn k ls) in *.
+    assert (Hlk : length lk = k) by (subst lk; rewrite firstn_length; lia).
+    assert (Hd : hs_data T s = [] ++ fpost (fview lk) ++ (more ++ skipn (hs_cur T s) (hs_data T s))).
+    { rewrite <- (firstn_skipn (hs_cur T s) (hs_data T s)) at 1. rewrite Hf, Hmore, fview_post, <- app_assoc. reflexivity. }
+    assert (Hne : fview lk <> []) by (apply fview_nonempty; destruct lk; simpl in *; [lia|congruence]).
+    pose proof (fview_fwf lk) as HF.
+    pose proof (post_le_leaves _ _ HF) as Hpl. rewrite fview_leaves, Hlk in Hpl.
+    rewrite subproof_eq.
+    pose proof (sp_run_forest (S (N.size_nat (N.of_nat k - 1))) (fview lk) _ s [] _ m true [] HF Hne Hd) as HL.
+    rewrite fview_leaves, Hlk in HL. cbn [length] in HL. change (N.of_nat 0) with 0%N in HL.
+    rewrite app_nil_r in HL. unfold rfc_proof. fold (MerkleSpec.sub T hc hempty m lk). apply HL.
+    - unfold two32N. lia.
+    - lia.
+    - lia.
+    - lia.
+    - right. left. reflexivity.
+    - pose proof (fmeasure_fuel _ _ HF Hne) as Hfu. rewrite fview_leaves, Hlk in Hfu.
+      replace (N.of_nat k - 1)%N with (N.of_nat (k - 1)) by lia. lia.
+  Qed.
 End Tree.
